@@ -193,6 +193,18 @@ func c09(c *core.Ctx) {
 			break
 		}
 		okq := false
+		// Duration.Milliseconds()/Microseconds()/Nanoseconds() are the same floor divisions
+		if call, ok := q.(*ssa.Call); ok {
+			div := map[string]int64{"time.Duration.Milliseconds": 1e6, "time.Duration.Microseconds": 1e3, "time.Duration.Nanoseconds": 1}[core.InfoOf(&call.Call).Full()]
+			if div != 0 {
+				if src, _, isC := core.CallResult(call.Call.Args[0]); isC {
+					if n := core.InfoOf(&src.Call).Full(); n == "time.Until" || n == "time.Time.Sub" {
+						clientDiv = div
+						okq = true
+					}
+				}
+			}
+		}
 		if b, ok := q.(*ssa.BinOp); ok && b.Op == token.QUO && core.TypeStr(b.Type()) == "time.Duration" {
 			if d, isC := core.ConstInt(b.Y); isC {
 				clientDiv = d
